@@ -2,6 +2,7 @@ import Dcg.Driver.Proto
 import Dcg.Model.Template
 import Dcg.Gen.TemplateAst
 import Dcg.Model.TemplateBlock
+import Dcg.Model.TemplateLex
 /-! Driver for the template interpreter: `tpl.render <template name> <context>` renders one of the
 generated template ASTs in a context given as an S-expression:
 
@@ -49,6 +50,23 @@ def blockRefute (strict : Bool) (t : List Tpl) : String :=
     "refuted " ++ why ++ " " ++ factsStr σ
 
 def handlers : List (String × Handler) := [
+  ("tpl.lexstate", fun
+    | [s] => match s.str? with
+      | some s => "ok " ++ (Dcg.Model.TemplateLex.lexAuto.run Dcg.Model.TemplateLex.LQ.code s : Dcg.Model.TemplateLex.LQ).proj.name
+      | none => "err args"
+    | _ => "err args"),
+  ("tpl.lexrefute", fun
+    | [name] => match name.str? with
+      | some name =>
+        (match Dcg.Gen.TemplateAst.templates.lookup (String.ofList name) with
+         | some t => (match Dcg.Model.TemplateLex.finalNames t with
+           | some fs => if check Dcg.Model.TemplateLex.lexAuto .code Dcg.Model.TemplateLex.lexGood [] [] t then "none"
+                        else "refuted finals " ++ ",".intercalate fs
+           | none => "refuted site " ++ ";".intercalate ((Dcg.Model.TemplateLex.siteRows t).map
+               (fun r => r.expr ++ "@" ++ ",".intercalate r.states)))
+         | none => "err no-such-template")
+      | none => "err args"
+    | _ => "err args"),
   ("tpl.blockrefute", fun
     | [name, strict] => match name.str?, strict.bool? with
       | some name, some strict =>
